@@ -789,7 +789,16 @@ fn segs(rng: &mut Rng, data: &[u8]) -> Vec<Ev> {
     if data.is_empty() {
         return vec![];
     }
-    let cuts = if data.len() > 400 && rng.chance(1, 2) { vec![] } else { random_cuts(rng, data.len()) };
+    // long bodies: a few cuts only (one segment per byte would take a millisecond each)
+    let cuts = if data.len() > 400 {
+        let k = rng.below(7) as usize;
+        let mut v: Vec<usize> = (0..k).map(|_| rng.range(1, data.len() as u64 - 1) as usize).collect();
+        v.sort();
+        v.dedup();
+        v
+    } else {
+        random_cuts(rng, data.len())
+    };
     cut(data, &cuts).into_iter().filter(|s| !s.is_empty()).map(|s| d(&s)).collect()
 }
 
@@ -1228,7 +1237,7 @@ fn main() {
                 idx += 1;
             }
         }
-        let n = args.n.unwrap_or(if thorough { 2400 } else { 300 });
+        let n = args.n.unwrap_or(if thorough { 2400 } else { 240 });
         for i in 0..n {
             let mut r = rng.fork();
             let maxb = if thorough && i % 7 == 0 { 20000 } else { 300 };
